@@ -746,6 +746,10 @@ class Executor:
             loop = s1.new_uid()
             if it[0] == "tuple" and len(it) <= 9 and all(_concrete(x) for x in it[1:]):
                 yield from self._for_literal(node, it, loop, 0, s1)
+            elif it[0] == "list" and 2 <= len(it) <= 9 and not any(x[0] == "star" for x in it[1:]) \
+                    and not any(e.k == "mutate" and e.d.get("base") == it for e in s1.trace):
+                # a non-empty list display nobody has appended to on this path (emit([carry])): its elements, in order
+                yield from self._for_literal(node, it, loop, 0, s1)
             else:
                 yield from self._for_iter(node, it, loop, 0, s1)
 
@@ -1469,6 +1473,13 @@ class Executor:
         if base[0] == "attr" and base[1] == EV and base[2] == "key" and attr not in ("index", "count"):
             # the key of an event is a tuple: it has no such method
             st.trace.append(Eff("badfield", node, mod, field="key.%s()" % attr, kind=st.kind))
+        if base[0] == "kindcls" and attr not in ("_make", "_replace", "_fields", "_asdict"):
+            # a method added to an event class (OnErrorMux.from_item(i, e)): what it builds is not followed
+            uid = st.new_uid()
+            res = ("mcall", base, attr, tuple(allargs), uid)
+            eff = Eff("call", node, mod, func=("attr", base, attr), args=allargs, result=res, method=attr, base=base, unresolved=True)
+            yield from self._may_raise(st, eff, res)
+            return
         if base == EVSTORE and attr == "get_state" and len(args) + len(kwargs) == 3 and (len(args) == 3 or (kwargs and kwargs[-1][0] == "default")):
             # get_state(state, key, default): the one extension of the store API the model follows -- the stored value, or `default` when
             # the slot reads NOTSET (MS-3 checks that MemoryStore.get, given a default parameter, returns exactly that on the NOTSET path)
